@@ -114,6 +114,15 @@ func optTokens(r *Rng, oi optInfo, level int) []PTok {
 }
 
 // genPlan builds a valid command line for d.
+func hasDDash(p *Plan) bool {
+	for _, t := range p.Toks {
+		if t.Role == "ddash" {
+			return true
+		}
+	}
+	return false
+}
+
 func genPlan(r *Rng, d *DeclSpec) *Plan {
 	p := &Plan{}
 	ois := optInfos(d)
@@ -256,7 +265,7 @@ func genPlan(r *Rng, d *DeclSpec) *Plan {
 		if a.Kind == "int" {
 			w = genPlainText(r, "uint")
 		}
-		words = append(words, PTok{Text: w, Role: "pos"})
+		words = append(words, PTok{Text: w, Role: "pos", Kind: a.Kind})
 	}
 	if !hasRestArg {
 		for i := r.Range(0, 2); i > 0 && r.Bool(); i-- {
@@ -280,7 +289,14 @@ func genPlan(r *Rng, d *DeclSpec) *Plan {
 			continue
 		}
 		// last segment: options interleaved with the words (unless POSIX mode)
-		if passAfter && len(words) > 0 {
+		if d.Options&optPassDoubleDash != 0 && len(words) > 0 && r.Chance(1, 6) {
+			// the words follow a double dash: they still fill the positional fields
+			for _, j := range perm {
+				p.Toks = append(p.Toks, occ[j]...)
+			}
+			p.Toks = append(p.Toks, PTok{Text: "--", Role: "ddash"})
+			p.Toks = append(p.Toks, words...)
+		} else if passAfter && len(words) > 0 {
 			for _, j := range perm {
 				p.Toks = append(p.Toks, occ[j]...)
 			}
@@ -298,7 +314,7 @@ func genPlan(r *Rng, d *DeclSpec) *Plan {
 		}
 	}
 	// 5. after a double dash everything is passed through
-	if d.Options&optPassDoubleDash != 0 && !hasRestArg && len(pos) == 0 && r.Chance(1, 5) {
+	if d.Options&optPassDoubleDash != 0 && !hasRestArg && len(pos) == 0 && r.Chance(1, 5) && !hasDDash(p) {
 		p.Toks = append(p.Toks, PTok{Text: "--", Role: "ddash"})
 		for i := r.Range(0, 2); i > 0; i-- {
 			w := r.Pick([]string{"--not-an-option", "-x", "plain", "--", "-h", "--help"})
@@ -307,4 +323,170 @@ func genPlan(r *Rng, d *DeclSpec) *Plan {
 		}
 	}
 	return p
+}
+
+// planConsistent re-checks a plan against the declaration as it is now (a
+// minimised scenario may have lost what the generator relied on): every word of
+// the line must still mean what it was generated to mean. Errs towards "no".
+func planConsistent(d *DeclSpec, p *Plan) bool {
+	// the command chain exists, its words appear in order, and it ends where a
+	// command may be left out
+	cs, subOpt := d.Commands, d.SubOptional
+	var last *CmdSpec
+	var cmdWords []string
+	for _, t := range p.Toks {
+		if t.Role == "cmd" {
+			cmdWords = append(cmdWords, t.Text)
+		}
+	}
+	if len(cmdWords) != len(p.Chain) {
+		return false
+	}
+	for i, name := range p.Chain {
+		c := findCmd(cs, name)
+		if c == nil {
+			return false
+		}
+		okWord := cmdWords[i] == c.Name
+		for _, a := range c.Aliases {
+			okWord = okWord || a == cmdWords[i]
+		}
+		if !okWord {
+			return false
+		}
+		last, cs, subOpt = c, c.Commands, c.SubOptional
+	}
+	if len(cs) > 0 && !subOpt {
+		return false
+	}
+	ois := map[string]optInfo{}
+	byShort := map[string]optInfo{}
+	onChain := func(oi optInfo) bool {
+		if len(oi.CmdPath) > len(p.Chain) {
+			return false
+		}
+		for i := range oi.CmdPath {
+			if oi.CmdPath[i] != p.Chain[i] {
+				return false
+			}
+		}
+		return true
+	}
+	for _, oi := range optInfos(d) {
+		ois[oi.Path] = oi
+		if oi.O.Short != "" && onChain(oi) {
+			byShort[oi.O.Short] = oi
+		}
+	}
+	given := map[string]bool{}
+	nPos, sawDDash := 0, false
+	for i, t := range p.Toks {
+		switch t.Role {
+		case "flag", "optname", "optval":
+			oi, ok := ois[t.Opt]
+			if !ok || !onChain(oi) || oi.O.Kind != t.Kind {
+				return false
+			}
+			given[t.Opt] = true
+			name := t.Text
+			if t.Role == "optval" {
+				name = t.Name
+			}
+			long := "--" + oi.LongFull
+			short := "-" + oi.O.Short
+			switch {
+			case oi.LongFull != "" && (name == long || name == long+"="):
+			case oi.O.Short != "" && (name == short || name == short+"="):
+			default:
+				return false
+			}
+			if t.Role == "flag" && !isBoolFlag(oi.O.Kind) && !oi.O.Optional {
+				return false
+			}
+			if t.Role == "optname" && (i+1 >= len(p.Toks) || p.Toks[i+1].Role != "val") {
+				return false
+			}
+			if len(oi.O.Choices) > 0 && t.Role == "optval" {
+				ok := false
+				for _, c := range oi.O.Choices {
+					ok = ok || c == t.Val
+				}
+				if !ok {
+					return false
+				}
+			}
+		case "val":
+			if i == 0 || p.Toks[i-1].Role != "optname" {
+				return false
+			}
+			if oi, ok := ois[t.Opt]; ok && len(oi.O.Choices) > 0 {
+				found := false
+				for _, c := range oi.O.Choices {
+					found = found || c == t.Val
+				}
+				if !found {
+					return false
+				}
+			}
+		case "cluster":
+			for _, r := range t.Text[1:] {
+				oi, ok := byShort[string(r)]
+				if !ok || !isBoolFlag(oi.O.Kind) {
+					return false
+				}
+				given[oi.Path] = true
+			}
+		case "pos":
+			nPos++
+		case "ddash":
+			sawDDash = true
+		}
+	}
+	if sawDDash && d.Options&optPassDoubleDash == 0 {
+		return false
+	}
+	for _, oi := range ois {
+		if oi.O.Required && onChain(oi) && !given[oi.Path] {
+			return false
+		}
+	}
+	// positional fields: enough words for the required ones, integer fields get integers
+	own := d.Root
+	if last != nil {
+		own = last.Own
+	}
+	if own != nil {
+		need, n := 0, 0
+		for _, a := range own.Pos {
+			if a.Kind == "[]string" {
+				if a.Required != "" {
+					need = n + 1
+				}
+				continue
+			}
+			n++
+			if own.PosRequired || a.Required != "" {
+				need = n
+			}
+		}
+		words := nPos
+		if words < need {
+			return false
+		}
+		k := 0
+		for _, t := range p.Toks {
+			if t.Role != "pos" {
+				continue
+			}
+			if k < len(own.Pos) && own.Pos[k].Kind == "int" && t.Kind != "int" {
+				return false
+			}
+			if k < len(own.Pos) && own.Pos[k].Kind != "[]string" {
+				k++
+			}
+		}
+	} else if nPos > 0 {
+		return false
+	}
+	return true
 }
